@@ -2,6 +2,7 @@ import CCVerif.Model.Json
 import CCVerif.Lemmas.JsonDoc
 import CCVerif.Lemmas.JsonDocTags
 import CCVerif.Lemmas.JsonDocModelLoad
+import CCVerif.Lemmas.JsonDocModelLoad2
 import CCVerif.Lemmas.JsonOss
 import CCVerif.Lemmas.JsonOssLoad
 import CCVerif.Lemmas.JsonOssGraph
@@ -1061,5 +1062,83 @@ theorem model_load_repeated_counterexample :
     (((loadData gapModel.items repeatedTy repeatedData).bind (dataToJson gapModel.items)).bind
         fun ds => loadData gapModel.items repeatedTy (.arr ds)).map repeatedView = some [(some [(1, "a")], some .less)] := by
   constructor <;> first | decide | rfl | (with_unfolding_all decide)
+
+end CCVerif.JsonDoc
+
+/-! ## model documents: the loader establishes `LoadedWF` / `Keyed` (`Lemmas/JsonDocModelLoad2.lean`) -/
+namespace CCVerif.JsonDoc
+open CCVerif.Json CCVerif.Core CCVerif.SDC
+
+/-- **model_load_wf**: whatever model document the loader accepts, the loaded content satisfies
+`LoadedWF` (`RenameKeeps`: the translator applied for a replaced alias leaves uid, alias, kind,
+word forms and tracking flags alone — `renameKeeps_id` for the harness / driver input). -/
+theorem model_load_wf (env : Env) (hk : RenameKeeps env) (d : Json) (c : Model)
+    (h : Model.fromJson env d = some c) : c.LoadedWF :=
+  model_load_wf_core normTags_idempotent env hk d c h
+
+/-- **model_load_keyed**: when the `entityUID`s of the `data` array are distinct, every non-empty
+loaded text interpretation goes with the data set of its keys. -/
+theorem model_load_keyed (env : Env) (d : Json) (c : Model)
+    (h : Model.fromJson env d = some c) (hnd : (dataUids d).Nodup) : c.Keyed :=
+  model_load_keyed_core env d c h hnd
+
+/-- **model_load_save_load_stable**: `load (save (load d)) = load d` for every accepted model
+document whose `data` elements have distinct `entityUID`s (the hypothesis
+`model_load_repeated_counterexample` shows necessary), whose loaded values re-pack (`ValsOK`:
+well-formed typification, marker-free; C16) and in updated state. -/
+theorem model_load_save_load_stable (env : Env) (hk : RenameKeeps env) (d : Json) (c : Model)
+    (h : Model.fromJson env d = some c) (hnd : (dataUids d).Nodup) (hv : c.ValsOK) (hu : ModelUpdated env c) :
+    ∃ j, c.toJson = some j ∧ Model.fromJson env j = some c :=
+  model_load_save_load_stable_partial env d c h (model_load_wf env hk d c h) hv (model_load_keyed env d c h hnd) hu
+
+/-- non-vacuity: a `data` element for an unknown uid, a base-set value without texts, a calculated
+term whose `texts` are ignored, a calculated axiom; items out of kind order -/
+def loadedEnv : Env :=
+  { fresh := fun _ => 0
+    rename := fun _ _ r => r
+    analyse := fun _ _ => { parse := { status := .verified } }
+    typif := fun _ u => if u = 5 ∨ u = 7 then some (.coll (.base "X1")) else none }
+
+def loadedDoc : Json :=
+  .obj [("title", .str "t"),
+        ("items", .arr [
+          .obj [("entityUID", .num 7), ("cstType", .str "term"), ("alias", .str "D1"),
+                ("definition", .obj [("formal", .str "X1")])],
+          .obj [("entityUID", .num 5), ("cstType", .str "basic"), ("alias", .str "X1")],
+          .obj [("entityUID", .num 9), ("cstType", .str "axiom"), ("alias", .str "A1")]]),
+        ("data", .arr [
+          .obj [("entityUID", .num 424242)],
+          .obj [("entityUID", .num 5), ("wasCalculated", .bool false), ("value", .arr [.arr [.num 2, .num 3], .arr [.num 2, .num 8]])],
+          .obj [("entityUID", .num 7), ("wasCalculated", .bool true), ("value", .arr [.arr [.num 1, .num 3]]),
+                ("texts", .arr [.str "ignored"])],
+          .obj [("entityUID", .num 9), ("wasCalculated", .bool true), ("value", .bool true)]])]
+
+def loadedView (c : Model) : List (Nat × Bool × Option Nat) :=
+  c.data.map fun e => (e.uid, e.wasCalc, e.texts.map (·.length))
+def loadedVals (c : Model) : List (Option Cmp × Option Bool) :=
+  c.data.map fun e => (e.sdata.map (cmp · (.s [.e 3, .e 8])), e.stmt)
+
+example : ∃ c, Model.fromJson loadedEnv loadedDoc = some c ∧ RenameKeeps loadedEnv ∧ (dataUids loadedDoc).Nodup ∧
+    c.ValsOK ∧ ModelUpdated loadedEnv c ∧
+    c.items.map (·.uid) = [5, 7, 9] ∧
+    loadedView c = [(5, false, some 0), (7, true, none), (9, true, none)] ∧
+    loadedVals c = [(some .equal, none), (some .less, none), (none, some true)] ∧
+    ∃ j, c.toJson = some j ∧ Model.fromJson loadedEnv j = some c := by
+  have hk : RenameKeeps loadedEnv := renameKeeps_id _ rfl
+  have hnd : (dataUids loadedDoc).Nodup := by decide
+  have hb1 : (Model.fromJson loadedEnv loadedDoc).map Model.valsOKb = some true := by decide +kernel
+  have hb2 : (Model.fromJson loadedEnv loadedDoc).map (fun c => c.items.map (·.uid)) = some [5, 7, 9] := by decide +kernel
+  have hb3 : (Model.fromJson loadedEnv loadedDoc).map loadedView = some [(5, false, some 0), (7, true, none), (9, true, none)] := by
+    decide +kernel
+  have hb4 : (Model.fromJson loadedEnv loadedDoc).map loadedVals = some [(some .equal, none), (some .less, none), (none, some true)] := by
+    decide +kernel
+  cases hc : Model.fromJson loadedEnv loadedDoc with
+  | none => rw [hc] at hb1; cases hb1
+  | some c =>
+    rw [hc] at hb1 hb2 hb3 hb4
+    simp only [Option.map_some, Option.some.injEq] at hb1 hb2 hb3 hb4
+    have hv := valsOK_of_b c hb1
+    have hu := model_load_updated normTags_idempotent loadedEnv hk ⟨fun _ _ _ => rfl, fun _ _ _ => rfl⟩ loadedDoc c hc
+    exact ⟨c, rfl, hk, hnd, hv, hu, hb2, hb3, hb4, model_load_save_load_stable loadedEnv hk loadedDoc c hc hnd hv hu⟩
 
 end CCVerif.JsonDoc
